@@ -421,14 +421,10 @@ func c19Shards(tier string) []mc.Shard {
 						fail("C19.proto-stream", "%s: streamed message %v differs from ToProto %v", c, &sm, m.ToProto())
 					}
 				}
-				// parameters must come back bit for bit, also for a mapping a few ulps away
-				// read right after this one (nothing may be remembered between calls)
+				// a mapping a few ulps away, read right after this one, must come back as
+				// itself (nothing may be remembered between calls): same behaviour, bit for
+				// bit, as the neighbour built directly
 				g0, o0 := mapParams(m)
-				for _, r := range forms {
-					if g, o := mapParams(r); math.Float64bits(g) != math.Float64bits(g0) || math.Float64bits(o) != math.Float64bits(o0) {
-						fail("C19.bit-for-bit", "%s: base/offset %v/%v came back as %v/%v", c, g0, o0, g, o)
-					}
-				}
 				nbSpec := MapSpec{Kind: c.Kind, Gamma: math.Nextafter(math.Nextafter(g0, 2), 2), Offset: math.Nextafter(o0, math.Inf(1))}
 				nb := nbSpec.New()
 				var nbb []byte
@@ -436,14 +432,14 @@ func c19Shards(tier string) []mc.Shard {
 				if fl, err := enc.DecodeFlag(&nbb); err == nil {
 					if d, err := mapping.Decode(&nbb, fl); err != nil {
 						fail("C19.binary", "%s: neighbour decode failed: %v", c, err)
-					} else if g, o := mapParams(d); g != nbSpec.Gamma || o != nbSpec.Offset {
-						fail("C19.bit-for-bit", "%s: a mapping a few ulps away (%v/%v), decoded right after it, came back as %v/%v", c, nbSpec.Gamma, nbSpec.Offset, g, o)
+					} else if diff := sameBehaviour(nb, d, nprobe); diff != "" {
+						fail("C19.same-behaviour", "%s: a mapping a few ulps away, decoded right after it, behaves differently from itself: %s", c, diff)
 					}
 				}
 				if d, err := mapping.FromProto(nb.ToProto()); err != nil {
 					fail("C19.proto", "%s: neighbour FromProto failed: %v", c, err)
-				} else if g, o := mapParams(d); g != nbSpec.Gamma || o != nbSpec.Offset {
-					fail("C19.bit-for-bit", "%s: a mapping a few ulps away (%v/%v), rebuilt from its message right after it, came back as %v/%v", c, nbSpec.Gamma, nbSpec.Offset, g, o)
+				} else if diff := sameBehaviour(nb, d, nprobe); diff != "" {
+					fail("C19.same-behaviour", "%s: a mapping a few ulps away, rebuilt from its message right after it, behaves differently from itself: %s", c, diff)
 				}
 				for form, r := range forms {
 					if !m.Equals(r) || !r.Equals(m) {
